@@ -73,13 +73,15 @@ def run_harness(exe, w, rx, wdir, tag):
         with open(out, "rb") as fh:
             data = fh.read()
         good = data[:data.rfind(b"\n") + 1] if b"\n" in data else b""
-        evs = [l for l in good.split(b"\n") if l.strip()]
+        evs = []
         last = None
-        if evs:
-            try:
-                last = json.loads(evs[-1].decode())
-            except ValueError:
-                last = None
+        for l in good.split(b"\n"):          # drop the half-written event of the operation that died
+            if l.strip():
+                try:
+                    last = json.loads(l.decode())
+                    evs.append(l)
+                except ValueError:
+                    pass
         if rc in (70, 71) and last and last.get("ev") in ("Fault", "Hang"):
             done = last["ln"]
         elif rc == "timeout" or (isinstance(rc, int) and rc < 0):
